@@ -226,6 +226,20 @@ def billDocs : List (JVal × NStr) :=
 
 theorem regimes_listed : (billDocs.all fun d =>
     listedOnce goRegimes (oneOfConsts d.1 [s%"$defs", d.2, s%"properties", s%"$regime"])) = true := by decide +kernel
+/-- **known finding C11-K7, on the regenerated data**: `tax.Regime.Validate` accepts every code
+    the regime registry answers to (`goRegimeKeys`: the regimes' countries AND their alternative
+    country codes) and nothing rewrites an accepted `$regime`; the published enumerations list the
+    countries only.  Exactly the alternative codes are accepted and not listed — and one of them is
+    not even a published tax country code, which is what a party's `$regime` is published as.
+    (`regimes_listed` above is about `goRegimes`, the codes `SetRegime` writes.) -/
+theorem regime_aliases_not_listed :
+    (billDocs.all fun d =>
+      goRegimeKeys.filter (fun k => !(oneOfConsts d.1 [s%"$defs", d.2, s%"properties", s%"$regime"]).contains k)
+        == [s%"GR", s%"XI", s%"XU"]) = true ∧
+    goRegimeKeys.filter (fun k => !(oneOfConsts f_l10n_tax_country_code [s%"$defs", s%"TaxCountryCode"]).contains k)
+      = [s%"GR"] ∧
+    goRegimes.all (goRegimeKeys.contains ·) = true := by decide +kernel
+
 theorem addons_listed : (billDocs.all fun d =>
     listedOnce goAddons (oneOfConsts d.1 [s%"$defs", d.2, s%"properties", s%"$addons", s%"items"])) = true := by decide +kernel
 theorem document_types_listed :
